@@ -24,6 +24,7 @@ import (
 	"github.com/taskctl/taskctl/pkg/runner"
 	"github.com/taskctl/taskctl/pkg/scheduler"
 	"github.com/taskctl/taskctl/pkg/task"
+	"github.com/taskctl/taskctl/pkg/variables"
 )
 
 // TaskCase is one task of the grammar. Status[i] is the exit status of command i (0 = ok).
@@ -36,10 +37,11 @@ type TaskCase struct {
 	Cond       string `json:"cond"`                  // "", "true", "false"
 	CondStatus int    `json:"cond_status,omitempty"` // exit status of a false condition (default 1)
 	Pipeline   bool   `json:"pipeline"`
+	StageOv    string `json:"stage_ov,omitempty"` // with Pipeline: the stage carries an override (env, vars, dir), so the scheduler runs a copy of the task
 }
 
 func (c TaskCase) String() string {
-	return fmt.Sprintf("status=%v variations=%d allow=%v before=%q after=%q cond=%q pipeline=%v", c.Status, c.Variations, c.Allow, c.Before, c.After, c.Cond, c.Pipeline)
+	return fmt.Sprintf("status=%v variations=%d allow=%v before=%q after=%q cond=%q pipeline=%v%s", c.Status, c.Variations, c.Allow, c.Before, c.After, c.Cond, c.Pipeline, map[bool]string{true: " stage-override=" + c.StageOv, false: ""}[c.StageOv != ""])
 }
 
 type expect struct {
@@ -179,7 +181,16 @@ func runCase(c TaskCase) (o observed, panicked string) {
 	r.Stdout, r.Stderr, r.OutputFormat = &buf, io.Discard, output.FormatRaw
 	t := buildTask(c)
 	if c.Pipeline {
-		g, err := scheduler.NewExecutionGraph(&scheduler.Stage{Name: "s", Task: t})
+		st0 := &scheduler.Stage{Name: "s", Task: t}
+		switch c.StageOv {
+		case "env":
+			st0.Env = variables.FromMap(map[string]string{"STAGE_ENV": "1"})
+		case "vars":
+			st0.Variables = variables.FromMap(map[string]string{"stagevar": "1"})
+		case "dir":
+			st0.Dir = os.TempDir()
+		}
+		g, err := scheduler.NewExecutionGraph(st0)
 		if err != nil {
 			panic(err)
 		}
@@ -197,6 +208,9 @@ func runCase(c TaskCase) (o observed, panicked string) {
 		}
 	}
 	o.Errored, o.Skipped, o.ExitCode = t.Errored, t.Skipped, int(t.ExitCode)
+	if c.StageOv != "" {
+		o.ExitCode = -3 // the scheduler ran a copy: the result fields of the original are not compared
+	}
 	return o, ""
 }
 
@@ -213,7 +227,7 @@ func compare(c TaskCase, e expect, o observed) [][3]string {
 		v = append(v, [3]string{"C07", "error", fmt.Sprintf("run reported error=%v, model %v", o.Err, e.Err)})
 		v = append(v, [3]string{"C06", "error", fmt.Sprintf("run reported error=%v, model %v", o.Err, e.Err)})
 	}
-	if e.ExitCode != -2 {
+	if e.ExitCode != -2 && o.ExitCode != -3 {
 		if o.Errored != e.Errored {
 			v = append(v, [3]string{"C07", "errored", fmt.Sprintf("Errored=%v, model %v", o.Errored, e.Errored)})
 		}
@@ -258,16 +272,21 @@ func main() {
 	target := *common.Prop
 	if *common.Replay != "" {
 		var rf struct {
-			Case *TaskCase `json:"case"`
-			Cli  *cliCase  `json:"cli"`
-			Cap  *capCase  `json:"cap"`
-			To   *toCase   `json:"to"`
-			Cp   *cpCase   `json:"cp"`
-			Hist *histCase `json:"hist"`
+			Case  *TaskCase `json:"case"`
+			Cli   *cliCase  `json:"cli"`
+			Cap   *capCase  `json:"cap"`
+			To    *toCase   `json:"to"`
+			Cp    *cpCase   `json:"cp"`
+			Hist  *histCase `json:"hist"`
+			Pipe3 *TaskCase `json:"pipe3"`
 		}
 		common.ReadReplay(&rf)
 		bad := false
-		if rf.Hist != nil {
+		if rf.Pipe3 != nil {
+			k, d := runPipe3(*rf.Pipe3)
+			fmt.Printf("pipeline a->b, c with a = %s: %s %s\n", *rf.Pipe3, k, d)
+			bad = k != ""
+		} else if rf.Hist != nil {
 			k, d := runHistory(*rf.Hist)
 			fmt.Printf("history %s: %s %s\n", *rf.Hist, k, d)
 			bad = k != "" && (target != "C07" || k == "error")
@@ -419,6 +438,31 @@ func main() {
 				goto done
 			}
 		}
+	case "stagecopy": // the task grammar run as a pipeline stage, plain and with each kind of stage override (the scheduler then runs a copy of the task)
+		for k := 1; k <= 2; k++ {
+			stop := false
+			forStatus(k, []int{0, 1}, func(st []int) {
+				for _, v := range []int{0, 1, 2, 3} {
+					for _, allow := range []bool{false, true} {
+						for _, b := range []string{"", "ok"} {
+							for _, a := range []string{"", "ok"} {
+								for _, ov := range []string{"", "env", "vars", "dir"} {
+									if stop || do(TaskCase{Status: st, Variations: v, Allow: allow, Before: b, After: a, Pipeline: true, StageOv: ov}) {
+										stop = true
+										return
+									}
+								}
+							}
+						}
+					}
+				}
+			})
+			if stop {
+				goto done
+			}
+		}
+	case "pipe3": // C02 on the real runner
+		pipe3Unit(res, target)
 	case "history2": // k<=2 commands, histories of 2 and 3 runs
 		historyUnit(res, target, 2, 3)
 	case "history3": // thorough: k<=3 commands, histories of up to 3 runs
